@@ -52,7 +52,7 @@ def checkC10 (l : Line) : Verdict := Id.run do
     let mut runs := false
     for (a, _) in hist do
       if a == 0xff46 then started := true
-      if a == 65536 && started then runs := true
+      if a ≥ 65536 && started then runs := true
     return runs
   for (lo, hi) in windows do
     if k != 9 && !(k == 7 && dmaRuns) then
@@ -76,10 +76,11 @@ def checkC10 (l : Line) : Verdict := Id.run do
   -- model
   let mut s := mkBus l
   for (a, v) in hist do
-    if a == 65536 then
-      match Sys.dev s (64 * v) with
+    if a ≥ 65536 then
+      let clocks := if a == 65536 then 64 * v else 4 * v
+      match Sys.dev s clocks with
       | .ok s' => s := s'
-      | .error _ => return .modelDiff s!"model panics when {64 * v} clocks pass but the implementation survived"
+      | .error _ => return .modelDiff s!"model panics when {clocks} clocks pass but the implementation survived"
     else
     match Bus.write s a v with
     | .ok s' => s := s'
